@@ -69,6 +69,7 @@ type GenomeCfg struct {
 	ShuffleMods  bool // list the modules in a generated order (control-node ids and innovation numbers not ascending)
 	Big          bool // one genome in twenty-five is large (up to 40 hidden nodes and 300 genes)
 	LargeNumbers bool // one genome in ten carries node ids up to 2^31-1 and innovation numbers up to 2^63-2
+	LargeRoom    bool // as LargeNumbers, but the numbers leave room for a long history (node ids up to 2^30, innovation numbers up to 2^62)
 	ModLinkW     bool // every second module is assembled in code: its links carry generated weights and recurrence flags
 }
 
@@ -103,7 +104,7 @@ func permuteNodeIds(t *rapid.T, s GenomeSpec) GenomeSpec {
 // enlargeNumbers shifts every node id above a generated pivot, and every innovation number above another pivot, by a large
 // offset (order preserved): the numbers of a long run - node ids are issued from a population-wide 32-bit counter,
 // innovation numbers from a 64-bit one.
-func enlargeNumbers(t *rapid.T, s GenomeSpec) GenomeSpec {
+func enlargeNumbers(t *rapid.T, s GenomeSpec, room bool) GenomeSpec {
 	maxId := 0
 	for _, n := range s.Nodes {
 		if n.Id > maxId {
@@ -115,7 +116,11 @@ func enlargeNumbers(t *rapid.T, s GenomeSpec) GenomeSpec {
 			maxId = m.Id
 		}
 	}
-	off := rapid.SampledFrom([]int{0, 250, 32700, 65500, 1 << 24, math.MaxInt32 - maxId}).Draw(t, "node id offset")
+	offs := []int{0, 250, 32700, 65500, 1 << 24, math.MaxInt32 - maxId}
+	if room {
+		offs = []int{250, 32700, 65500, 1 << 24, 1 << 30}
+	}
+	off := rapid.SampledFrom(offs).Draw(t, "node id offset")
 	pivot := rapid.IntRange(0, maxId).Draw(t, "node id pivot")
 	mv := func(id int) int {
 		if id > pivot {
@@ -149,7 +154,11 @@ func enlargeNumbers(t *rapid.T, s GenomeSpec) GenomeSpec {
 			maxInn = m.Innov
 		}
 	}
-	ioff := rapid.SampledFrom([]int64{0, 70000, 1 << 31, 1 << 40, math.MaxInt64 - maxInn - 1}).Draw(t, "innovation offset")
+	ioffs := []int64{0, 70000, 1 << 31, 1 << 40, math.MaxInt64 - maxInn - 1}
+	if room {
+		ioffs = []int64{70000, 1 << 31, 1 << 40, 1 << 53, 1 << 62}
+	}
+	ioff := rapid.SampledFrom(ioffs).Draw(t, "innovation offset")
 	ipivot := int64(rapid.IntRange(0, int(maxInn)).Draw(t, "innovation pivot"))
 	for i := range s.Genes {
 		if s.Genes[i].Innov > ipivot {
@@ -217,8 +226,8 @@ func genGenomeSpec(cfg GenomeCfg) *rapid.Generator[GenomeSpec] {
 		if !cfg.SensorsFirst && rapid.IntRange(0, 7).Draw(t, "permute node ids") == 0 {
 			s = permuteNodeIds(t, s)
 		}
-		if cfg.LargeNumbers && rapid.IntRange(0, 9).Draw(t, "large numbers") == 0 {
-			s = enlargeNumbers(t, s)
+		if (cfg.LargeNumbers || cfg.LargeRoom) && rapid.IntRange(0, 9).Draw(t, "large numbers") == 0 {
+			s = enlargeNumbers(t, s, cfg.LargeRoom)
 		}
 		if err := SpecWellFormed(s); err != nil {
 			panic(fmt.Sprintf("generator bug: G-direct produced a malformed genome: %v\n%s", err, jsonStr(s)))
